@@ -51,7 +51,7 @@ def scalar_domain(t, node, env, small=False):
             n = int(ref)
             full = tuple(s for s in ("abcdefgh"[:n], ("a~ÿ" + "x" * n)[:n], ("€Ā" + "y" * n)[:n]))
             if is_bool_attr(node, "padded"):
-                d = ("",) + tuple(dict.fromkeys(("a"[:n], "ÿ"[:n]))) + full[:2]
+                d = ("",) + tuple(dict.fromkeys(("a"[:n], "abcdefgh"[: max(0, n - 1)], "ÿ"[:n]))) + full[:2]  # odd and even padding counts
                 d = tuple(dict.fromkeys(d))
             else:
                 d = tuple(dict.fromkeys(full))
@@ -347,3 +347,45 @@ def rich_values(unit, env, n=2, cap=256):
     ranked = sorted(range(len(vals)), key=lambda i: (-richness(vals[i]), i))
     picked = [0] + [i for i in ranked if i != 0][: n - 1]
     return [vals[i] for i in picked]
+
+
+def boundary_values(unit, env, base, short_too=False):
+    """Variants of a value tree `base` in which one item measured by a length field sits at the edge of what that length
+    field can carry: the longest length it admits (largest wire value + offset) and the shortest (wire value 0).
+    Length fields of type byte/char always; short only when asked (64k-element items).  The caller filters by the
+    reference semantics, so variants the format does not admit are simply not in the domain."""
+    from .xtypes import INT_MAXVAL
+
+    nodes = _scope_nodes(unit)
+    scope = {n.get("name"): n for n in nodes if n.tag in ("field", "array", "length") and n.get("name")}
+    for ins in nodes:
+        if ins.tag not in ("field", "array") or ins.get("name") is None:
+            continue
+        ref = ins.get("length")
+        if ref is None or ref.isdigit() or ref not in scope:
+            continue
+        ln = scope[ref]
+        lt = ln.get("type")
+        if lt not in ("byte", "char") and not (short_too and lt == "short"):
+            continue
+        off = int(ln.get("offset", "0"))
+        t = resolve(ins.get("type"), env)
+        cur = base.get(ins.get("name"))
+        for n in dict.fromkeys((INT_MAXVAL[lt] + off, max(0, off))):
+            if n < 0:
+                continue
+            if ins.tag == "field":
+                if t.kind != "string":
+                    continue
+                new = ("ab" * n)[:n]
+            else:
+                el = scalar_domain(t, None, env, small=True)
+                if t.kind == "string" or not el:
+                    continue
+                filler = cur[0] if cur else el[0]
+                new = (filler,) * n
+            if new == cur:
+                continue
+            out = dict(base)
+            out[ins.get("name")] = new
+            yield (f"len({ins.get('name')})={n}", out)
